@@ -1,7 +1,8 @@
 import LexVerif.Proof.ParseNumberC11Many
 import LexVerif.Proof.ParseNumberC11Key
 /-!
-# Proof.ParseNumberC11Prefix — C11 (B) `partial_prefix`: no digit-separator byte, release build
+# Proof.ParseNumberC11Prefix — C11 (B) `partial_prefix`: release build; number results for every format without a
+separator flag on integer / fraction / exponent (`NumContig`), special results without a digit-separator byte
 
 Front end (`parse_sign!`, emptiness test) and special-value parser under truncation, then the composition.
 -/
@@ -12,16 +13,18 @@ open LexVerif LexVerif.Model LexVerif.Spec
 open LexVerif.Props.C12 (Bytes.Valid)
 open LexVerif.Proof.PNTotal (Rel peek_contig)
 
+/-! ## number results: `NumContig` (no separator byte, or no separator flag on integer / fraction / exponent) -/
+
 section
-variable {c : Cfg} (hc : Rel c) (hb : c.bytesContiguous = true)
+variable {c : Cfg} (hc : Rel c) (hb : NumContig c)
 include hc hb
 
-theorem isConsumed_g (k : Comp) (b : Bytes) :
+theorem isConsumed_g (k : Comp) (hk : k ≠ .special) (b : Bytes) :
     isConsumed c k b = .ok (decide (b.index ≥ b.slc.length), b) := by
   unfold isConsumed
   split
   · rfl
-  · simp only [peek_contig hc hb, bind, Except.bind, pure, Except.pure, Except.ok.injEq, Prod.mk.injEq, and_true]
+  · simp only [peek_num hc hb k hk, bind, Except.bind, pure, Except.pure, Except.ok.injEq, Prod.mk.injEq, and_true]
     cases hx : b.slc[b.index]? with
     | none => have := List.getElem?_eq_none_iff.mp hx; simp; omega
     | some x => have := (List.getElem?_eq_some_iff.mp hx).1; simp; omega
@@ -37,7 +40,7 @@ theorem afterSign_trunc (s : List Nat) (neg : Bool) (b : Bytes) (h : afterSign c
   | ok pr =>
     obtain ⟨n0, b0⟩ := pr
     rw [hs] at h
-    simp only [isConsumed_g hc hb, Except.ok.injEq, Prod.mk.injEq] at h
+    simp only [isConsumed_g hc hb .integer (by decide), Except.ok.injEq, Prod.mk.injEq] at h
     obtain ⟨rfl, he, rfl⟩ := h
     have hv0 : Bytes.Valid (Bytes.new s) := by simp [Bytes.Valid, Bytes.new]
     obtain ⟨_, _, a3, a4⟩ := parseSign_trunc hc hb _ _ _ _ (Bytes.new s) b0 n0 hv0 hs
@@ -46,9 +49,65 @@ theorem afterSign_trunc (s : List Nat) (neg : Bool) (b : Bytes) (h : afterSign c
     rw [e] at this
     unfold parseMantissaSign at hs ⊢
     rw [this]
-    simp only [isConsumed_g hc hb, Except.ok.injEq, Prod.mk.injEq, true_and, and_true]
+    simp only [isConsumed_g hc hb .integer (by decide), Except.ok.injEq, Prod.mk.injEq, true_and, and_true]
     simp only [decide_eq_false_iff_not, trunc_slc, trunc_index, List.length_take, ge_iff_le, Nat.not_le] at he ⊢
     omega
+
+omit hc hb in
+theorem tail_partial_number (o : POpts) (s : List Nat) (fv neg : Bool) (b : Bytes) (x : Number) (cnt : Nat)
+    (h : tail c o true s fv neg b = .ok (.number x cnt)) : parseNumber c true o b neg fv = .ok (x, cnt) := by
+  unfold tail at h
+  simp only [if_true] at h
+  cases h1 : parseNumber c true o b neg fv with
+  | ok r => rw [h1] at h; cases h; rfl
+  | error e =>
+    rw [h1] at h
+    cases e with
+    | err k i =>
+      simp only at h
+      cases h3 : parsePositiveSpecial c o b with
+      | error e => rw [h3] at h; cases h
+      | ok r => cases r <;> rw [h3] at h <;> cases h
+    | panic t => cases h
+    | fault t => cases h
+
+/-- `partial_prefix`, number results: every input and options -/
+theorem partial_prefix_number_g (o : POpts) (s : List Nat) (fv : Bool) (x : Number) (cnt : Nat)
+    (hr : 1 ≤ c.mantissaRadix) (hm : c.requiredMantissaDigits = true)
+    (h : parseFloatSyntax c o true s fv = .ok (.number x cnt)) :
+    parseFloatSyntax c o false (s.take cnt) fv = .ok (.number x cnt) := by
+  rw [parseFloatSyntax_eq] at h ⊢
+  cases ha : afterSign c s with
+  | error e => rw [ha] at h; cases h
+  | ok pr =>
+    obtain ⟨neg, consumed, b⟩ := pr
+    rw [ha] at h
+    simp only at h
+    cases consumed with
+    | true => simp only [if_true] at h; split at h <;> cases h
+    | false =>
+      simp only [Bool.false_eq_true, if_false] at h
+      obtain ⟨hslc, hv, _⟩ := afterSign_ok c s neg false b ha
+      have hpn := tail_partial_number o s fv neg b x cnt h
+      obtain ⟨p1, p2, p3⟩ := parseNumber_trunc hc hb true o b neg fv x cnt hr hm hv hpn
+      rw [afterSign_trunc hc hb s neg b ha cnt p1]
+      simp only [Bool.false_eq_true, if_false]
+      unfold tail
+      simp only [Bool.false_eq_true, if_false]
+      rw [parseCompleteNumber_eq, (parseNumber_ok_iff c o _ neg fv _).mp (p3 cnt (Nat.le_refl _))]
+      have hlen : (trunc cnt b).slc.length = cnt := by
+        simp only [trunc_slc, List.length_take]; omega
+      have hlen2 : (s.take cnt).length = cnt := by
+        rw [← hslc]; simp only [List.length_take]; omega
+      simp only [hlen, if_true, hlen2, pure, Except.pure]
+
+end
+
+/-! ## special results and the composition: no separator byte -/
+
+section
+variable {c : Cfg} (hc : Rel c) (hb : c.bytesContiguous = true)
+include hc hb
 
 /-! ## the special-value parser under truncation -/
 
@@ -384,24 +443,6 @@ theorem parsePositiveSpecial_trunc (o : POpts) (b : Bytes) (sp : Special) (cnt :
 /-! ## composition -/
 
 omit hc hb in
-theorem tail_partial_number (o : POpts) (s : List Nat) (fv neg : Bool) (b : Bytes) (x : Number) (cnt : Nat)
-    (h : tail c o true s fv neg b = .ok (.number x cnt)) : parseNumber c true o b neg fv = .ok (x, cnt) := by
-  unfold tail at h
-  simp only [if_true] at h
-  cases h1 : parseNumber c true o b neg fv with
-  | ok r => rw [h1] at h; cases h; rfl
-  | error e =>
-    rw [h1] at h
-    cases e with
-    | err k i =>
-      simp only at h
-      cases h3 : parsePositiveSpecial c o b with
-      | error e => rw [h3] at h; cases h
-      | ok r => cases r <;> rw [h3] at h <;> cases h
-    | panic t => cases h
-    | fault t => cases h
-
-omit hc hb in
 theorem tail_partial_special (o : POpts) (s : List Nat) (fv neg : Bool) (b : Bytes) (sp : Special) (ng : Bool)
     (cnt : Nat) (h : tail c o true s fv neg b = .ok (.special sp ng cnt)) :
     ng = neg ∧ parsePositiveSpecial c o b = .ok (some (sp, cnt)) := by
@@ -422,36 +463,6 @@ theorem tail_partial_special (o : POpts) (s : List Nat) (fv neg : Bool) (b : Byt
         | some pr => rw [h3] at h; cases h; exact ⟨rfl, rfl⟩
     | panic t => cases h
     | fault t => cases h
-
-/-- `partial_prefix`, number results: every input and options -/
-theorem partial_prefix_number_g (o : POpts) (s : List Nat) (fv : Bool) (x : Number) (cnt : Nat)
-    (hr : 1 ≤ c.mantissaRadix) (hm : c.requiredMantissaDigits = true)
-    (h : parseFloatSyntax c o true s fv = .ok (.number x cnt)) :
-    parseFloatSyntax c o false (s.take cnt) fv = .ok (.number x cnt) := by
-  rw [parseFloatSyntax_eq] at h ⊢
-  cases ha : afterSign c s with
-  | error e => rw [ha] at h; cases h
-  | ok pr =>
-    obtain ⟨neg, consumed, b⟩ := pr
-    rw [ha] at h
-    simp only at h
-    cases consumed with
-    | true => simp only [if_true] at h; split at h <;> cases h
-    | false =>
-      simp only [Bool.false_eq_true, if_false] at h
-      obtain ⟨hslc, hv, _⟩ := afterSign_ok c s neg false b ha
-      have hpn := tail_partial_number o s fv neg b x cnt h
-      obtain ⟨p1, p2, p3⟩ := parseNumber_trunc hc hb true o b neg fv x cnt hr hm hv hpn
-      rw [afterSign_trunc hc hb s neg b ha cnt p1]
-      simp only [Bool.false_eq_true, if_false]
-      unfold tail
-      simp only [Bool.false_eq_true, if_false]
-      rw [parseCompleteNumber_eq, (parseNumber_ok_iff c o _ neg fv _).mp (p3 cnt (Nat.le_refl _))]
-      have hlen : (trunc cnt b).slc.length = cnt := by
-        simp only [trunc_slc, List.length_take]; omega
-      have hlen2 : (s.take cnt).length = cnt := by
-        rw [← hslc]; simp only [List.length_take]; omega
-      simp only [hlen, if_true, hlen2, pure, Except.pure]
 
 /-- `partial_prefix`, special results: needs the exclusion of class (iii) (`SpecialHeadsOK`) -/
 theorem partial_prefix_special_g (o : POpts) (s : List Nat) (fv : Bool) (sp : Special) (ng : Bool) (cnt : Nat)
@@ -479,7 +490,7 @@ theorem partial_prefix_special_g (o : POpts) (s : List Nat) (fv : Bool) (sp : Sp
       simp only [List.length_cons] at hcnt
       have hidx : b.index < cnt := by omega
       obtain ⟨hle, hpt⟩ := parsePositiveSpecial_trunc hc hb o b sp cnt hv (by omega) hps
-      rw [afterSign_trunc hc hb s ng b ha cnt hidx]
+      rw [afterSign_trunc hc (NumContig.of_bytes hb) s ng b ha cnt hidx]
       simp only [Bool.false_eq_true, if_false]
       have hvt : (trunc cnt b).index ≤ (trunc cnt b).slc.length := by
         simp only [trunc_slc, trunc_index, List.length_take]; omega
@@ -511,7 +522,7 @@ theorem partial_prefix_g (o : POpts) (s : List Nat) (fv : Bool) (p : Parsed)
     (h : parseFloatSyntax c o true s fv = .ok p) :
     parseFloatSyntax c o false (s.take (pcount p)) fv = .ok p := by
   cases p with
-  | number x cnt => exact partial_prefix_number_g hc hb o s fv x cnt hr hm h
+  | number x cnt => exact partial_prefix_number_g hc (NumContig.of_bytes hb) o s fv x cnt hr hm h
   | special sp ng cnt => exact partial_prefix_special_g hc hb o s fv sp ng cnt hr hm hrad hh h
   | zero n =>
     exfalso
